@@ -850,6 +850,7 @@ func cmpForm(cond ssa.Value, op token.Token, pa, pb func(ssa.Value) bool) bool {
 
 // LeavesX extends LeavesIP in the other direction too: a leaf that is the
 // result of a call to an unexported function of a product package is
+// (or of a small exported function of a product package) is
 // replaced by the leaves of what that function returns in that result
 // position (non-nil-error returns only when the last result is an error),
 // so "cipher := u.cipherForSend(seg)" is as transparent as the statements it
@@ -872,7 +873,7 @@ func LeavesX(p *Prog, fn *ssa.Function, v ssa.Value, depth int) []ssa.Value {
 			continue
 		}
 		sc := call.Common().StaticCallee()
-		if sc == nil || sc.Blocks == nil || sc.Object() == nil || sc.Object().Exported() || !inProduct(sc.Pkg.Pkg.Path()) || len(sc.Blocks) > 30 {
+		if sc == nil || sc.Blocks == nil || sc.Object() == nil || sc.Pkg == nil || sc.Pkg.Pkg == nil || !inProduct(sc.Pkg.Pkg.Path()) || len(sc.Blocks) > 30 {
 			out = append(out, l)
 			continue
 		}
